@@ -12,8 +12,8 @@ Cfg == TraceLog[1]
 SeqSet(s) == {s[i] : i \in 1..Len(s)}
 FlowsT == SeqSet(Cfg.flows)
 
-VARIABLES l, p, viol
-tvars == <<l, p, viol>>
+VARIABLES l, p, viol, loaded0      \* loaded0: which path-parameter files the engine had loaded before the update
+tvars == <<l, p, viol, loaded0>>
 
 Ev == TraceLog[l + 1]
 Consume(name) == l < TraceLen /\ Ev.ev = name /\ l' = l + 1
@@ -25,19 +25,22 @@ NoCaseT == [endpoint |-> "configuration", method |-> "PUT", disk |-> << >>, payl
 
 Note(v) == viol' = IF v = "" THEN viol ELSE viol \cup {v}
 
-TInit == l = 1 /\ p = PStart(FlowsT, NoCaseT) /\ viol = {}
+TInit == l = 1 /\ p = PStart(FlowsT, NoCaseT) /\ viol = {} /\ loaded0 = << >>
 
-TReset  == Consume("reset") /\ p' = PStart(FlowsT, CaseOf(Ev)) /\ viol' = {}
+TReset  == Consume("reset") /\ p' = PStart(FlowsT, CaseOf(Ev)) /\ viol' = {} /\ loaded0' = Ev.loaded
 TProbe  == /\ Consume("probe")
            /\ Note(ProbeVerdict(p, Ev.ph, Ev.txn, Ev.served))
-           /\ p' = PAfterProbe(p, Ev.ph, Ev.txn, Ev.served)
-TCall   == Consume("call") /\ p.st = "idle" /\ p' = PAfterCall(p) /\ UNCHANGED viol
-TStatus == Consume("status") /\ p' = PAfterStatus(p, Ev.code) /\ UNCHANGED viol
-TFault  == Consume("fault") /\ p' = PAfterFault(p) /\ UNCHANGED viol
+           /\ p' = PAfterProbe(p, Ev.ph, Ev.txn, Ev.served) /\ UNCHANGED loaded0
+TCall   == Consume("call") /\ p.st = "idle" /\ p' = PAfterCall(p) /\ UNCHANGED <<viol, loaded0>>
+TStatus == Consume("status") /\ p' = PAfterStatus(p, Ev.code) /\ UNCHANGED <<viol, loaded0>>
+TFault  == Consume("fault") /\ p' = PAfterFault(p) /\ UNCHANGED <<viol, loaded0>>
 TReply  == /\ Consume("reply") /\ p.st = "running"
-           /\ Note(ReplyVerdict(p, Ev.code, Ev.disk, Ev.tree))
-           /\ p' = PAfterReply(p, Ev.code)
-TSkip   == l < TraceLen /\ Ev.ev \in {"fs", "hook", "haproxy"} /\ l' = l + 1 /\ UNCHANGED <<p, viol>>
+           \* the whole tree byte for byte, and what the engine loaded from the directories it reads recursively
+           /\ LET v == ReplyVerdict(p, Ev.code, Ev.disk, Ev.tree) IN
+              Note(IF v # "" THEN v
+                   ELSE IF ~IsOK(Ev.code) /\ ~p.exempt /\ Ev.loaded # loaded0 THEN "BehavAtomic" ELSE "")
+           /\ p' = PAfterReply(p, Ev.code) /\ UNCHANGED loaded0
+TSkip   == l < TraceLen /\ Ev.ev \in {"fs", "hook", "haproxy"} /\ l' = l + 1 /\ UNCHANGED <<p, viol, loaded0>>
 
 TNext == TReset \/ TProbe \/ TCall \/ TStatus \/ TFault \/ TReply \/ TSkip
 TraceSpec == TInit /\ [][TNext]_tvars
